@@ -14,8 +14,54 @@ KIND = "sample"
 ALGS = ['PaVeBa', 'PaVeBaGP', 'PaVeBaPartialGP', 'VOGP', 'EpsilonPAL', 'Auer', 'NaiveElimination', 'DecoupledGP']
 
 
+def _own_region_leg(seed):
+    """The rank function of IsTopQ for VOGP / VOGP_AD / eps-PAL is "the diagonal of the design's OWN displayed region": points handed to
+    MaxDiagonalAcquisition are mapped back to their designs (locate_points) - also when two designs are 2e-6 apart, when coordinates are
+    large, and whatever the order of the query."""
+    import numpy as np
+    from vopy.acquisition import MaxDiagonalAcquisition, optimize_acqf_discrete
+    from vopy.design_space import FixedPointsDesignSpace
+    rs = np.random.RandomState(seed + 31)
+    bad, n = [], 0
+    for trial in range(40):
+        npts, d = int(rs.randint(4, 13)), int(rs.randint(1, 4))
+        X = rs.rand(npts, d) * (1.0, 1.0, 50.0)[trial % 3] + (0.0, 0.0, -20.0)[trial % 3]
+        i, j = sorted(int(v) for v in rs.choice(npts, 2, replace=False))
+        if trial % 2 == 0:
+            X[j] = X[i] + 2e-6            # a near-twin of an EARLIER design
+        ds = FixedPointsDesignSpace(X.copy(), 2, "hyperrectangle")
+        widths = rs.randint(1, 9, size=(npts, 2)).astype(float)
+        for k, r in enumerate(ds.confidence_regions):
+            r.lower, r.upper = np.zeros(2), widths[k].copy()
+        diag = np.linalg.norm(widths, axis=1)
+        perm = rs.permutation(npts)
+        try:
+            n += 3
+            loc = [int(v) for v in ds.locate_points(X[perm])]
+            if loc != [int(v) for v in perm]:
+                bad.append({"kind": "locate-points", "X": X.tolist(), "query": perm.tolist(), "expected": perm.tolist(), "got": loc})
+                continue
+            got = np.asarray(MaxDiagonalAcquisition(ds).forward(X[perm]), dtype=float)
+            if got.shape != (npts,) or not np.allclose(got, diag[perm], rtol=1e-12, atol=0):
+                bad.append({"kind": "diagonal-of-own-region", "X": X.tolist(), "query": perm.tolist(), "expected": diag[perm].tolist(), "got": got.tolist()})
+                continue
+            sub = sorted(int(v) for v in rs.choice(npts, size=max(2, npts // 2), replace=False))
+            cand, _ = optimize_acqf_discrete(MaxDiagonalAcquisition(ds), 1, choices=X[sub])
+            best = [k for k in sub if diag[k] == max(diag[sub])]
+            hit = [k for k in sub if np.array_equal(X[k], np.asarray(cand)[0])]
+            if not hit or hit[0] not in best:
+                bad.append({"kind": "argmax-of-own-region", "X": X.tolist(), "active": sub, "expected_one_of": best, "got": hit})
+        except Exception as e:
+            bad.append({"kind": "own-region-exception", "X": X.tolist(), "error": repr(e)[:200]})
+    return n, bad
+
+
 def run(ctx):
     import vopy.algorithms  # noqa: F401
+    n_own, bad_own = _own_region_leg(ctx.seed)
+    for b in bad_own:
+        ctx.violation("acq-%s" % b["kind"], b, "MaxDiagonalAcquisition / locate_points: %s" % str(b)[:400])
+    ctx.evaluations += n_own
     AC.abstract_model(ctx, ALGS, N=3, batch=2)
     if ctx.tier == "thorough":
         AC.abstract_model(ctx, [a for a in ALGS if a in ("PaVeBa", "PaVeBaGP", "PaVeBaPartialGP")], N=4, batch=3, maxround=2)
@@ -28,4 +74,6 @@ def run(ctx):
 
 
 def replay(body):
+    if "cfg" not in body.get("case", {}):
+        return not _own_region_leg(0)[1]
     return AC.replay_case(body, PROP)
